@@ -29,8 +29,11 @@ static const ClassInfo CLS[] = {
     {"Skinny64_64", 1, 8, 8, false, false}, {"Skinny64_128", 1, 8, 16, false, false}, {"Skinny64_128_Tweaked", 1, 8, 8, true, false},
     {"Skinny64_192", 1, 8, 24, false, false}, {"Skinny64_192_Tweaked", 1, 8, 16, true, false}, {"Mantis8", 2, 8, 16, true, false},
     {"CTR<Skinny128_128>", 0, 16, 16, false, true}, {"CTR<Skinny128_256>", 0, 16, 32, false, true}, {"CTR<Skinny128_256_Tweaked>", 0, 16, 16, true, true},
-    {"CTR<Skinny128_384>", 0, 16, 48, false, true}, {"CTR<Skinny128_384_Tweaked>", 0, 16, 32, true, true}};
-static const int NCLS = 16;
+    {"CTR<Skinny128_384>", 0, 16, 48, false, true}, {"CTR<Skinny128_384_Tweaked>", 0, 16, 32, true, true},
+    // the CTR template over 64-bit-block classes: the shipped code refuses the key (its counter logic is 16 bytes wide); an
+    // implementation that accepts it instead has to produce what the C library's 64-bit CTR produces
+    {"CTR<Skinny64_128>", 1, 8, 16, false, true}, {"CTR<Mantis8>", 2, 8, 16, false, true}};
+static const int NCLS = 18;
 
 struct Ard {
     std::unique_ptr<BlockCipher> bc; std::unique_ptr<CTRCommon> ctr;
@@ -51,6 +54,7 @@ static Ard make_ard(int c) {
     case 10: a.bc.reset(new Mantis8); a.setTweak = tw<Mantis8>; a.swap = [](Ard &x) { static_cast<Mantis8 *>(x.bc.get())->swapModes(); }; break;
     case 11: a.ctr.reset(new CTR<Skinny128_128>); break; case 12: a.ctr.reset(new CTR<Skinny128_256>); break; case 13: a.ctr.reset(new CTR<Skinny128_256_Tweaked>); break;
     case 14: a.ctr.reset(new CTR<Skinny128_384>); break; case 15: a.ctr.reset(new CTR<Skinny128_384_Tweaked>); break;
+    case 16: a.ctr.reset(new CTR<Skinny64_128>); break; case 17: a.ctr.reset(new CTR<Mantis8>); break;
     }
     return a;
 }
@@ -58,8 +62,10 @@ static Ard make_ard(int c) {
 // reference model: the C library object
 struct CRef {
     Skinny128TweakedKey_t k128; Skinny64TweakedKey_t k64; MantisKey_t km; Skinny128CTR_t ctr; bool ctr_init = false;
+    Skinny64CTR_t c64; MantisCTR_t cm; bool c64_init = false, cm_init = false;
     bool keyed = false, iv_set = false;
-    ~CRef() { if (ctr_init) skinny128_ctr_cleanup(&ctr); }
+    bool zero_iv_pending = false;     // clear() left the all-zero counter and no buffered keystream: the next setKey alone defines the stream
+    ~CRef() { if (ctr_init) skinny128_ctr_cleanup(&ctr); if (c64_init) skinny64_ctr_cleanup(&c64); if (cm_init) mantis_ctr_cleanup(&cm); }
 };
 
 static Hist make_hist(uint64_t seed, uint64_t run) {
@@ -70,7 +76,7 @@ static Hist make_hist(uint64_t seed, uint64_t run) {
         Op o; unsigned c = r.below(100);
         if (!keyed || c < 10) { o.code = A_SETKEY; o.len = r.chance(5, 6) ? ci.keylen : (r.chance(1, 2) ? ci.keylen + ci.bs : r.below(50)); o.a = rb(o.len); if (o.len == ci.keylen) { keyed = true; prev_tweak.assign(ci.bs, 0); } }
         else if (ci.ctr) {
-            if (c < 30) { o.code = A_SETIV; o.len = r.chance(7, 8) ? 16 : r.below(20); o.a = rb(o.len); if (r.chance(1, 4) && o.len == 16) { std::fill(o.a.begin(), o.a.end(), 0xFF); o.a[15] = (uint8_t)(0xFF - r.below(6)); } }
+            if (c < 30) { o.code = A_SETIV; o.len = r.chance(7, 8) ? (ci.bs == 8 && r.chance(1, 2) ? 8 : 16) : r.below(20); o.a = rb(o.len); if (r.chance(1, 4) && o.len == 16) { std::fill(o.a.begin(), o.a.end(), 0xFF); o.a[15] = (uint8_t)(0xFF - r.below(6)); } }
             else if (c < 36) o.code = A_CLEAR, keyed = false;
             else { o.code = r.chance(1, 2) ? A_CENC : A_CDEC; static const unsigned L[] = {0, 1, 15, 16, 17, 31, 32, 33, 64, 100}; o.len = r.chance(1, 2) ? L[r.below(10)] : r.below(200); o.a = r.bytes(o.len); o.inplace = r.chance(1, 3); }
         } else {
@@ -105,17 +111,28 @@ static std::string op_str(const Hist &H, const Op &o) { return strf("%s::%s(%s%u
 static std::vector<Finding> evaluate(const Hist &H, uint64_t *compared, std::vector<std::string> *trace) {
     std::vector<Finding> F; const ClassInfo &ci = CLS[H.cls];
     Ard A = make_ard(H.cls); CRef C; memset(&C.k128, 0, sizeof C.k128); memset(&C.k64, 0, sizeof C.k64); memset(&C.km, 0, sizeof C.km);
-    if (ci.ctr) { skinny128_ctr_init(&C.ctr); C.ctr_init = true; }
+    const bool ctr64 = ci.ctr && ci.bs == 8;
+    if (ci.ctr && !ctr64) { skinny128_ctr_init(&C.ctr); C.ctr_init = true; }
+    if (ctr64 && ci.fam == 1) { skinny64_ctr_init(&C.c64); C.c64_init = true; }
+    if (ctr64 && ci.fam == 2) { mantis_ctr_init(&C.cm); C.cm_init = true; }
+    auto c64_setctr = [&](const uint8_t *c) { if (ci.fam == 1) skinny64_ctr_set_counter(&C.c64, c, 8); else mantis_ctr_set_counter(&C.cm, c, 8); };
     for (size_t i = 0; i < H.ops.size(); ++i) {
         const Op &o = H.ops[i]; std::string note;
         switch (o.code) {
         case A_SETKEY: {
             bool ra = ci.ctr ? A.ctr->setKey(o.a.data(), o.len) : A.bc->setKey(o.a.data(), o.len);
             bool want = o.len == ci.keylen;
+            if (ctr64) {      // refusing is fine; accepting obliges
+                if (ra && !want) { F.push_back({"return-value", strf("%s accepted a key of the wrong length", op_str(H, o).c_str()), (int)i}); return F; }
+                if (ra) { C.keyed = true; C.iv_set = false; if (ci.fam == 1) skinny64_ctr_set_key(&C.c64, o.a.data(), o.len); else mantis_ctr_set_key(&C.cm, o.a.data(), 16, 8);
+                          if (C.zero_iv_pending) { uint8_t z[8] = {0}; c64_setctr(z); C.iv_set = true; } }
+                note = strf("-> %d", ra); break;
+            }
             if (ra != want) { F.push_back({"return-value", strf("%s returned %d, expected %d", op_str(H, o).c_str(), ra, want), (int)i}); return F; }
             if (want) {
                 C.keyed = true; C.iv_set = false;
                 if (ci.ctr) { if (ci.tweaked) skinny128_ctr_set_tweaked_key(&C.ctr, o.a.data(), o.len); else skinny128_ctr_set_key(&C.ctr, o.a.data(), o.len); }
+                if (ci.ctr && C.zero_iv_pending) { uint8_t z[16] = {0}; skinny128_ctr_set_counter(&C.ctr, z, 16); C.iv_set = true; }     // clear(); setKey(); encrypt() starts at counter 0
                 else if (ci.fam == 0) { if (ci.tweaked) skinny128_set_tweaked_key(&C.k128, o.a.data(), o.len); else skinny128_set_key(&C.k128.ks, o.a.data(), o.len); }
                 else if (ci.fam == 1) { if (ci.tweaked) skinny64_set_tweaked_key(&C.k64, o.a.data(), o.len); else skinny64_set_key(&C.k64.ks, o.a.data(), o.len); }
                 else mantis_set_key(&C.km, o.a.data(), 16, 8, MANTIS_ENCRYPT);
@@ -133,7 +150,7 @@ static std::vector<Finding> evaluate(const Hist &H, uint64_t *compared, std::vec
             note = strf("-> %d", ra); break;
         }
         case A_SWAP: if (A.swap) { A.swap(A); if (C.keyed) mantis_swap_modes(&C.km); } break;
-        case A_CLEAR: if (ci.ctr) A.ctr->clear(); else A.bc->clear(); C.keyed = false; C.iv_set = false; break;
+        case A_CLEAR: if (ci.ctr) A.ctr->clear(); else A.bc->clear(); C.keyed = false; C.iv_set = false; C.zero_iv_pending = ci.ctr; break;
         case A_ENC: case A_DEC: {
             if (ci.ctr) break;
             uint8_t in[16], oa[16], oc[16]; memcpy(in, o.a.data(), ci.bs);
@@ -150,20 +167,23 @@ static std::vector<Finding> evaluate(const Hist &H, uint64_t *compared, std::vec
         }
         case A_SETIV: {
             if (!ci.ctr) break;
+            if (ctr64) { bool r8 = A.ctr->setIV(o.a.data(), o.len); C.iv_set = false; if (r8 && o.len == 8) { c64_setctr(o.a.data()); C.iv_set = true; C.zero_iv_pending = false; } note = strf("-> %d", r8); break; }
             bool ra = A.ctr->setIV(o.a.data(), o.len); bool want = o.len == 16;
             if (ra != want) { F.push_back({"return-value", strf("%s returned %d, expected %d", op_str(H, o).c_str(), ra, want), (int)i}); return F; }
-            if (want) { skinny128_ctr_set_counter(&C.ctr, o.a.data(), 16); C.iv_set = true; }
+            if (want) { skinny128_ctr_set_counter(&C.ctr, o.a.data(), 16); C.iv_set = true; C.zero_iv_pending = false; }
             note = strf("-> %d", ra); break;
         }
         case A_CENC: case A_CDEC: {
             if (!ci.ctr) break;
             if (!C.keyed || !C.iv_set) break;         // both sides are only defined after setKey + setIV
+            if (o.len) C.zero_iv_pending = false;       // the counter has moved on
             Bytes oa(o.len), oc(o.len), in = o.a;
             if (o.inplace) { oa = in; if (o.code == A_CENC) A.ctr->encrypt(oa.data(), oa.data(), o.len); else A.ctr->decrypt(oa.data(), oa.data(), o.len); }
             else { if (o.code == A_CENC) A.ctr->encrypt(oa.data(), in.data(), o.len); else A.ctr->decrypt(oa.data(), in.data(), o.len); }
-            Bytes dummy(1); skinny128_ctr_encrypt(o.len ? oc.data() : dummy.data(), o.len ? in.data() : dummy.data(), o.len, &C.ctr);
+            Bytes dummy(1); void *po = o.len ? oc.data() : dummy.data(); const void *pi = o.len ? in.data() : dummy.data();
+            if (!ctr64) skinny128_ctr_encrypt(po, pi, o.len, &C.ctr); else if (ci.fam == 1) skinny64_ctr_encrypt(po, pi, o.len, &C.c64); else mantis_ctr_encrypt(po, pi, o.len, &C.cm);
             ++*compared;
-            if (oa != oc) { size_t q = 0; while (q < o.len && oa[q] == oc[q]) ++q; F.push_back({"stream-mismatch", strf("%s: differs from skinny128_ctr_encrypt at byte %zu of the call", op_str(H, o).c_str(), q), (int)i}); return F; }
+            if (oa != oc) { size_t q = 0; while (q < o.len && oa[q] == oc[q]) ++q; F.push_back({"stream-mismatch", strf("%s: differs from the C library's CTR encrypt at byte %zu of the call", op_str(H, o).c_str(), q), (int)i}); return F; }
             note = "-> " + hex(oa.data(), std::min<size_t>(o.len, 16)); break;
         }
         }
